@@ -64,7 +64,7 @@ func LoadEngine(repoDir string, patterns []string, contractDirs []string, prelud
 	}
 	e.pkgs = pkgs
 	e.fset = pkgs[0].Fset
-	prog, spkgs := ssautil.AllPackages(pkgs, ssa.InstantiateGenerics)
+	prog, spkgs := ssautil.AllPackages(pkgs, ssa.InstantiateGenerics|ssa.GlobalDebug)
 	for _, p := range spkgs {
 		if p != nil && isRepoPkg(p) {
 			p.Build()
@@ -81,9 +81,20 @@ func LoadEngine(repoDir string, patterns []string, contractDirs []string, prelud
 			}
 		}
 	}
-	for _, p := range prog.AllPackages() {
-		if _, ok := e.pkgByName[p.Pkg.Name()]; !ok {
-			e.pkgByName[p.Pkg.Name()] = p.Pkg
+	// standard-library packages before third-party ones
+	for pass := 0; pass < 2; pass++ {
+		for _, p := range prog.AllPackages() {
+			first := p.Pkg.Path()
+			if i := strings.Index(first, "/"); i >= 0 {
+				first = first[:i]
+			}
+			isStd := !strings.Contains(first, ".")
+			if (pass == 0) != isStd {
+				continue
+			}
+			if _, ok := e.pkgByName[p.Pkg.Name()]; !ok {
+				e.pkgByName[p.Pkg.Name()] = p.Pkg
+			}
 		}
 	}
 	for fn := range ssautil.AllFunctions(prog) {
@@ -96,7 +107,7 @@ func LoadEngine(repoDir string, patterns []string, contractDirs []string, prelud
 	if err != nil {
 		return nil, err
 	}
-	e.contracts = &ContractSet{Fns: map[string]*FnContract{}, Imports: map[string]string{}}
+	e.contracts = &ContractSet{Fns: map[string]*FnContract{}, Imports: map[string]string{}, Macros: map[string]*Macro{}}
 	for _, p := range spkgs {
 		if p != nil && isRepoPkg(p) {
 			e.contracts.Imports[p.Pkg.Name()] = p.Pkg.Path()
@@ -125,6 +136,20 @@ func LoadEngine(repoDir string, patterns []string, contractDirs []string, prelud
 		}
 	}
 	e.scan()
+	// sorts of Go types the prelude mentions
+	for _, gt := range e.prelude.GoTypes {
+		i := strings.LastIndex(gt, ".")
+		if i < 0 {
+			continue
+		}
+		for _, p := range e.prog.AllPackages() {
+			if p.Pkg.Path() == gt[:i] {
+				if tn, ok := p.Pkg.Scope().Lookup(gt[i+1:]).(*types.TypeName); ok {
+					e.sorts.SortOf(tn.Type())
+				}
+			}
+		}
+	}
 	return e, nil
 }
 
